@@ -180,9 +180,13 @@ def run(module, tier, seed, nproc=16):
     extra_cov = {}
     if hasattr(module, "finish"):
         rc = module.finish(merged, extra_cov)
-        if rc:
+        if rc and not merged.failures:
             print("HARNESS-SANITY property=%s %s" % (prop, rc))
             return 2
+        if rc:
+            # a vacuity guard fired, but cases failed as well: the failures are the finding (a change that makes the library reject every
+            # valid object empties an outcome class and fails the cases that expected acceptance)
+            print("NOTE property=%s vacuity guard: %s (failing cases are reported below)" % (prop, rc))
 
     # ---- confirm failures by replaying each alone, twice
     known = load_known()
